@@ -90,3 +90,34 @@ async fn delete_expired_removes_only_expired_records() {
     for id in &live { assert!(s.load(id).await.unwrap().is_some(), "delete_expired removed a live record"); }
     assert_eq!(s.delete_expired(None).await.unwrap(), 0);
 }
+
+/// Bounded concurrency stress (labelled bounded): a sweeper thread runs delete_expired while a writer thread re-creates
+/// expired-but-unpurged ids with a long TTL. Linearizability demands that every record the writer created successfully,
+/// and that nobody deleted afterwards, is still there: a live record must never be swept.
+#[test]
+fn concurrent_delete_expired_never_sweeps_a_live_record() {
+    use std::sync::Arc;
+    let rt = || tokio::runtime::Builder::new_current_thread().build().unwrap();
+    for round in 0..4 {
+        let s = InMemorySessionStore::new();
+        let a = st("a", 1);
+        let ids: Arc<Vec<SessionId>> = Arc::new((0..60_000).map(|_| SessionId::random()).collect());
+        rt().block_on(async { for id in ids.iter() { s.create(id, rec(&a, Duration::from_millis(1))).await.unwrap(); } });
+        std::thread::sleep(Duration::from_millis(20));
+        let (s1, s2, ids2) = (s.clone(), s.clone(), ids.clone());
+        let sweeper = std::thread::spawn(move || rt().block_on(async move { s1.delete_expired(None).await.unwrap() }));
+        let writer = std::thread::spawn(move || rt().block_on(async move {
+            let a = st("a", 2);
+            let mut created = Vec::new();
+            for id in ids2.iter().take(4000) { if s2.create(id, rec(&a, LONG)).await.is_ok() { created.push(*id); } }
+            created
+        }));
+        let _ = sweeper.join().unwrap();
+        let created = writer.join().unwrap();
+        rt().block_on(async {
+            for id in &created {
+                assert!(s.load(id).await.unwrap().is_some(), "round {round}: a record created with a 1h TTL while delete_expired was running has been swept");
+            }
+        });
+    }
+}
